@@ -80,10 +80,12 @@ func (c *cancelCtx) cancel(err error, name string) {
 func newCancel(parent Context) *cancelCtx {
 	c := &cancelCtx{parent: parent, obj: vsched.NewObj("context"), done: vsched.MakeChan[struct{}]()}
 	c.done.SetName("ctx.Done")
-	if p, ok := parent.(*cancelCtx); ok {
+	if p := unwrap(parent); p != nil {
 		p.children = append(p.children, c)
 		if p.err != nil {
+			// child of a context that has already ended: born ended
 			c.err = p.err
+			c.done.Close()
 		}
 	}
 	return c
@@ -94,11 +96,29 @@ func WithCancel(parent Context) (Context, CancelFunc) {
 	return c, func() { c.cancel(Canceled, "ctx.cancel") }
 }
 
-// WithDeadline never expires by itself: the harness calls Expire to explore the
-// deadline landing at every point of the protocol.
+// WithManualDeadline is for harnesses: the context never expires by itself, the harness
+// calls Expire to explore the deadline landing at every point of the protocol.
+func WithManualDeadline(parent Context, d time.Time) (Context, CancelFunc) {
+	c := newCancel(parent)
+	c.deadline, c.hasDL = d, true
+	return c, func() { c.cancel(Canceled, "ctx.cancel") }
+}
+
+// WithDeadline (what context.WithDeadline / WithTimeout in the code under test become): the
+// deadline is a scheduler timer, so it lands when the explorer decides - early at the cost of
+// one deviation, at quiescence for free, never when timers are off - watched by a thread of
+// its own that ends with the context.
 func WithDeadline(parent Context, d time.Time) (Context, CancelFunc) {
 	c := newCancel(parent)
 	c.deadline, c.hasDL = d, true
+	if vsched.Mode() == vsched.ModeSched && c.err == nil {
+		tc := vsched.NewTimerChan[time.Time](d)
+		vsched.GoNamed("ctx-deadline", func() {
+			if s := vsched.Select(false, vsched.RecvCase(tc), vsched.RecvCase(c.done)); s.I == 0 {
+				c.cancel(DeadlineExceeded, "ctx.deadline-expires")
+			}
+		})
+	}
 	return c, func() { c.cancel(Canceled, "ctx.cancel") }
 }
 
@@ -106,17 +126,121 @@ func WithTimeout(parent Context, d time.Duration) (Context, CancelFunc) {
 	return WithDeadline(parent, time.Unix(0, 0).Add(d))
 }
 
+// WithManualTimeout: see WithManualDeadline.
+func WithManualTimeout(parent Context, d time.Duration) (Context, CancelFunc) {
+	return WithManualDeadline(parent, time.Unix(0, 0).Add(d))
+}
+
 // Expire makes ctx end with DeadlineExceeded (a visible operation of the caller).
 func Expire(ctx Context) {
-	if c, ok := ctx.(*cancelCtx); ok {
+	if c := unwrap(ctx); c != nil {
 		c.cancel(DeadlineExceeded, "ctx.deadline-expires")
 	}
 }
 
 // RawErr reads the error without a scheduling point (oracle use).
 func RawErr(ctx Context) error {
-	if c, ok := ctx.(*cancelCtx); ok {
+	if c := unwrap(ctx); c != nil {
 		return c.err
 	}
 	return nil
+}
+
+// ---- the rest of the context API, so that code using it still builds and runs under the scheduler
+
+type valueCtx struct {
+	Context
+	key, val any
+}
+
+func (v *valueCtx) Value(k any) any {
+	if k == v.key {
+		return v.val
+	}
+	return v.Context.Value(k)
+}
+
+func WithValue(parent Context, key, val any) Context { return &valueCtx{parent, key, val} }
+
+type CancelCauseFunc func(cause error)
+
+var causes = map[*cancelCtx]error{}
+var causesEpoch uint64
+
+func setCause(c *cancelCtx, cause error) {
+	if e := vsched.Epoch(); e != causesEpoch {
+		causes, causesEpoch = map[*cancelCtx]error{}, e
+	}
+	if _, ok := causes[c]; !ok && cause != nil {
+		causes[c] = cause
+	}
+}
+
+func WithCancelCause(parent Context) (Context, CancelCauseFunc) {
+	c := newCancel(parent)
+	return c, func(cause error) {
+		if RawErr(c) == nil {
+			setCause(c, cause)
+		}
+		c.cancel(Canceled, "ctx.cancel")
+	}
+}
+
+func unwrap(ctx Context) *cancelCtx {
+	for {
+		switch x := ctx.(type) {
+		case *cancelCtx:
+			return x
+		case *valueCtx:
+			ctx = x.Context
+		case withoutCancel:
+			return nil
+		default:
+			return nil
+		}
+	}
+}
+
+// Cause returns the cause given to a CancelCauseFunc of ctx or of an ancestor, else ctx.Err().
+func Cause(ctx Context) error {
+	err := ctx.Err()
+	if err == nil {
+		return nil
+	}
+	for c := unwrap(ctx); c != nil; c = unwrap(c.parent) {
+		if e := vsched.Epoch(); e == causesEpoch {
+			if cause, ok := causes[c]; ok {
+				return cause
+			}
+		}
+	}
+	return err
+}
+
+type withoutCancel struct{ Context }
+
+func (withoutCancel) Deadline() (time.Time, bool)  { return time.Time{}, false }
+func (withoutCancel) Done() *vsched.Chan[struct{}] { return nil }
+func (withoutCancel) Err() error                   { return nil }
+
+func WithoutCancel(parent Context) Context { return withoutCancel{parent} }
+
+// AfterFunc runs f in its own thread once ctx has ended; stop reports whether it prevented that.
+func AfterFunc(ctx Context, f func()) (stop func() bool) {
+	stopC := vsched.MakeChan[struct{}]().SetName("ctx.AfterFunc-stop")
+	ran, stopped := false, false
+	vsched.GoNamed("ctx-afterfunc", func() {
+		if s := vsched.Select(false, vsched.RecvCase(ctx.Done()), vsched.RecvCase(stopC)); s.I == 0 && !stopped {
+			ran = true
+			f()
+		}
+	})
+	return func() bool {
+		if ran || stopped {
+			return false
+		}
+		stopped = true
+		stopC.Close()
+		return true
+	}
 }
